@@ -95,9 +95,55 @@ def regenerate_gen():
     rc, out, _ = sh([sys.executable, os.path.join(ROOT, "gen/extract.py"), tmp_v, tmp_j], env=dict(ENV, ZV_REPO=REPO))
     if rc != 0:
         raise RuntimeError("translator failed:\n" + out)
-    changed = write_if_changed(os.path.join(COQ, "Gen/Src.v"), open(tmp_v).read())
+    src = open(tmp_v).read()
     info = json.load(open(tmp_j))
+    if info.get("missing") and os.path.exists(harness_bin()):
+        probed = probe_constants(info)
+        for k, v in probed.items():
+            src = re.sub(r"Definition %s : N := \d+\.  \(\* missing \*\)" % k, "Definition %s : N := %d.  (* probed *)" % (k, v), src)
+            info["how"][k] = "probed"
+            info["values"][k] = v
+        info["missing"] = [m for m in info["missing"] if m not in probed]
+    changed = write_if_changed(os.path.join(COQ, "Gen/Src.v"), src)
     return changed, info
+
+
+def probe_constants(info):
+    """Fallback of the translator: constants whose syntactic pattern was not found are MEASURED on the
+    compiled code through the harness (finite probes), so that a harmless rewrite (`len >= 256`) does not
+    break the tie.  Returns {name: value} for what could be measured; recorded as "probed" in the evidence."""
+    miss = set(info.get("missing", []))
+    out = {}
+    enc = {"enc_short_max", "enc_short_max2", "enc_flag_more", "enc_flag_long", "enc_long_width", "enc_short_width", "enc_more_on_all_but_last"}
+    if miss & enc:
+        cases = ["p%d enchdr %d,%d" % (n, n, n) for n in range(250, 262)]
+        try:
+            res = run_impl(cases, "probe")
+        except Exception:
+            res = {}
+        short_max = None
+        flags = {}
+        widths = {}
+        ok = True
+        for n in range(250, 262):
+            t = res.get("p%d" % n, "").split()
+            if len(t) != 3 or t[2] != "rest=0":
+                ok = False
+                break
+            h1, h2 = t[0].split(":")[0], t[1].split(":")[0]
+            b1, b2 = bytes.fromhex(h1), bytes.fromhex(h2)
+            if len(b1) == 2:
+                short_max = n
+                widths["s"] = 1
+                flags["more_s"], flags["last_s"] = b1[0], b2[0]
+            else:
+                widths["l"] = len(b1) - 1
+                flags["more_l"], flags["last_l"] = b1[0], b2[0]
+        if ok and short_max is not None and "l" in widths:
+            out.update({"enc_short_max": short_max, "enc_short_max2": short_max, "enc_short_width": widths["s"], "enc_long_width": widths["l"],
+                        "enc_flag_more": flags["more_s"] ^ flags["last_s"], "enc_flag_long": flags["last_l"] ^ flags["last_s"],
+                        "enc_more_on_all_but_last": 1 if (flags["more_s"] != flags["last_s"] and flags["more_l"] != flags["last_l"]) else 0})
+    return {k: v for k, v in out.items() if k in miss}
 
 
 def coq_files():
@@ -491,12 +537,13 @@ def prepare(release=False):
     working tree, rebuild model driver and harness."""
     os.makedirs(WORK, exist_ok=True)
     with Lock("build"):
-        with Lock("coq"):
-            changed, info = regenerate_gen()
-            build_model_driver()
+        # the harness first: the translator's probe fallback measures constants on the code as it is now
         ok, out = build_harness(False)
         if not ok:
             raise RuntimeError("harness does not build against /repo:\n" + out[-3000:])
+        with Lock("coq"):
+            changed, info = regenerate_gen()
+            build_model_driver()
         if release:
             ok, out = build_harness(True)
             if not ok:
